@@ -82,6 +82,7 @@ fn base(name: &str, prop: &'static str, alphabet: Vec<Cmd>, depth: usize, tier: 
         vbuckets: vec![],
         alt_thread_from: 0,
         no_dedup: false,
+        roots: vec![],
     }
 }
 
@@ -217,6 +218,29 @@ fn c02(tier: Tier) -> Vec<SeqCfg> {
         tick(1),
         tick(3),
     ];
+    // a server that has been running for a while: the same questions asked after 7 .. 257 earlier
+    // stores (every power of two and its neighbours, 10, 100), on the guarded key and on another one
+    {
+        let a = vec![
+            set(K1, b"s", 1, 0),
+            set(K2, b"o", 0, 0),
+            get(K1),
+            store(StoreKind::Set, K1, b"c", 2, 0, Current),
+            store(StoreKind::Set, K1, b"d", 2, 0, Stale1),
+            store(StoreKind::Set, K1, b"e", 2, 0, CurrentPlus1),
+            append(K1, b"+", Stale1),
+            incr(K2, 1, 10, 0, Stale1),
+            delete(K1, Stale1),
+        ];
+        let mut c = base("C02/after-many-stores", "C02", a, if tier == Tier::Quick { 3 } else { 4 }, tier);
+        // absolute tokens in the state fingerprint: the start states differ in nothing else
+        c.normalise = false;
+        for k in [7usize, 8, 9, 10, 15, 16, 17, 31, 32, 33, 63, 64, 65, 100, 127, 128, 129, 255, 256, 257] {
+            c.roots.push(vec![1u16; k]);
+            c.roots.push((0..k).map(|i| (i % 2) as u16).collect());
+        }
+        v.push(c);
+    }
     let mut c = base("C02/cas-with-ttl-late-clock", "C02", b, if tier == Tier::Quick { 6 } else { 12 }, tier);
     c.start_time = 100;
     v.push(c);
@@ -470,6 +494,26 @@ fn c15(tier: Tier) -> Vec<SeqCfg> {
     c.evict = Evict::Generous;
     c.check_usage = true;
     v.push(c);
+    // phantom bytes: a refused conditional store of a value as large as the limit pushes the counter
+    // past the limit while little is stored; the next store evicts everything, meets an empty store
+    // and restarts the counter -- after which the counter must again stand for what is stored
+    {
+        let big = [b'p'; 100];
+        let a = vec![
+            set(K1, b"aaaaaaaaaa", 1, 0),
+            store(StoreKind::Set, K1, &big, 5, 0, CurrentPlus1),
+            set(K2, b"7", 3, 0),
+            add(K1, b"ee", 6, 0),
+            delete(K1, Zero),
+            get(K1),
+            get(K2),
+        ];
+        let mut c = base("C15/phantom-bytes-L=100", "C15", a, if tier == Tier::Quick { 5 } else { 7 }, tier);
+        c.sut.policy = Policy::Random(100);
+        c.evict = Evict::Generous;
+        c.check_usage = true;
+        v.push(c);
+    }
     // which worker thread serves a client is not the client's business: the same small alphabet
     // twice, the second copy executed by another OS thread (one command at a time, no race)
     {
@@ -492,6 +536,45 @@ fn c15(tier: Tier) -> Vec<SeqCfg> {
         v.push(c);
     }
     v
+}
+
+/// Long repetitions: one client repeating a command hundreds of times on an absent, a present and an
+/// expired-but-uncollected key (and set/expire/read cycles).  Every step has to return (watchdog);
+/// every other property judges the same histories with its own clauses in the cross-alphabet pass.
+fn c16(tier: Tier) -> Vec<SeqCfg> {
+    use CasArg::Zero;
+    let a = vec![
+        set(K1, b"v", 1, 1),                   // 0
+        tick(3),                               // 1
+        get(K1),                               // 2
+        delete(K1, Zero),                      // 3
+        append(K1, b"+", Zero),                // 4
+        incr(K1, 1, 5, 0xffff_ffff, Zero),     // 5
+        set(K1, b"7", 2, 0),                   // 6
+        replace(K1, b"8", 3, 0),               // 7
+        flush(None),                           // 8
+        set(K2, b"x", 3, 1),                   // 9
+        get(K2),                               // 10
+        add(K1, b"9", 4, 1),                   // 11
+    ];
+    let n = if tier == Tier::Quick { 300usize } else { 3000 };
+    let mut c = base("C16/long-repetitions", "C16", a, 1, tier);
+    c.normalise = false;
+    for cmd in [2u16, 3, 4, 5, 7] {
+        // absent, present, expired-and-uncollected
+        c.roots.push(vec![cmd; n]);
+        c.roots.push(std::iter::once(6).chain(std::iter::repeat(cmd).take(n)).collect());
+        c.roots.push([0u16, 1].into_iter().chain(std::iter::repeat(cmd).take(n)).collect());
+    }
+    // two expired keys read alternately, never a store in between
+    c.roots.push([0u16, 9, 1].into_iter().chain((0..n).map(|i| if i % 2 == 0 { 2 } else { 10 })).collect());
+    // store / expire / read cycles, store / expire / store cycles, add on an expired key
+    c.roots.push((0..n).flat_map(|_| [0u16, 1, 2]).collect());
+    c.roots.push((0..n).flat_map(|_| [0u16, 1]).collect());
+    c.roots.push((0..n).flat_map(|_| [11u16, 1]).collect());
+    c.roots.push((0..n).flat_map(|_| [0u16, 8]).collect());
+    c.roots.push((0..n).flat_map(|_| [6u16, 3]).collect());
+    vec![c]
 }
 
 fn c11(tier: Tier) -> Vec<SeqCfg> {
@@ -593,7 +676,7 @@ pub fn seq_cfgs(prop: &str, tier: Tier) -> Vec<SeqCfg> {
     v
 }
 
-pub const SEQ_PROPS: [&str; 9] = ["C01", "C02", "C05", "C06", "C07", "C08", "C11", "C14", "C15"];
+pub const SEQ_PROPS: [&str; 10] = ["C01", "C02", "C05", "C06", "C07", "C08", "C11", "C14", "C15", "C16"];
 
 /// Cross-alphabet pass: the quick-tier configurations of the *other* sequential properties, judged
 /// by `prop`'s clauses - a discrepancy any alphabet reaches is reported by the property owning it.
@@ -605,7 +688,7 @@ pub fn foreign_cfgs(prop: &'static str) -> Vec<SeqCfg> {
         }
         for mut c in seq_cfgs(other, Tier::Quick) {
             // one level below the owner's own quick depth (the owner goes deeper with its own clauses)
-            if !matches!(other, "C14" | "C15") && !c.name.starts_with("C01/random") {
+            if !matches!(other, "C14" | "C15" | "C16") && !c.name.starts_with("C01/random") {
                 c.depth -= 1;
             }
             c.name = format!("{}@{}", c.name, prop);
@@ -628,6 +711,7 @@ fn seq_cfgs_inner(prop: &str, tier: Tier) -> Vec<SeqCfg> {
         "C19" => c19(tier),
         "C14" => c14(tier),
         "C15" => c15(tier),
+        "C16" => c16(tier),
         _ => vec![],
     }
 }
